@@ -26,6 +26,7 @@ CONSTANTS Names,      \* parameter names, alphabetical
           Fixed,      \* TRUE: nodes=self.parameter_names is passed to add_pdf_nodes
           TopoOnly,   \* TRUE: a parameter may only depend on earlier names (symmetry cut)
           Phases,     \* which phases to explore
+          Attrs,      \* phase 1: subset of {"pdf", "logpdf"}
           GradXs,     \* phase 3: lattice coordinates (quarters)
           GradHs      \* phase 3: step sizes (quarters)
 
@@ -57,7 +58,7 @@ Init == phase = 0 /\ args = NoArgs /\ names = <<>> /\ attr = "" /\ shp = <<>> /\
 PickNames ==
   /\ phase = 0 /\ 1 \in Phases /\ phase' = 10
   /\ names' \in OrderedSubsets
-  /\ attr' \in {"pdf", "logpdf"}
+  /\ attr' \in Attrs
   /\ UNCHANGED <<args, shp, gi>>
 \* argument choices of n once the requested names are known: a requested parameter only depends on requested ones
 ArgChoicesFor(n, req) == IF n \in req THEN {s \in ArgChoices(n) : \A i \in 1..Len(s) : s[i].t = "p" => s[i].p \in req}
